@@ -209,7 +209,7 @@ def run_property(pid, tier, seed):
         else:
             hit = set()
             for o in rc.failed:
-                if o['kind'].startswith('postcondition') and (o.get('clause') or '').strip().rstrip(',') == 'false' and o['function'].endswith('__canary'):
+                if o['kind'].startswith('postcondition') and re.sub(r'^ensures\s+', '', (o.get('clause') or '').strip()).rstrip(',') == 'false' and o['function'].endswith('__canary'):
                     hit.add(o['function'][:-len('__canary')])
             for nm in gc.canaried:
                 if nm not in hit and nm not in failed_fns:
